@@ -25,7 +25,7 @@ RULE = ('Hypothesis draws content (empty/ASCII/UTF-8 incl. astral/Latin-1 bytes 
 RULE += ' Contents include incompressible blocks repeated at distances 8200..33000 (DEFLATE matches up to the full window) under every compression, both directions.'
 ASSUMPTIONS = ['refpgp.grammar recogniser and zlib/bz2 (shared) are trusted', 'literal time compared at one-second resolution',
                'file names and times are supplied through PGPMessage.new(file=True) on temporary files, the only public way to set them',
-               'for explicit format "t" with non-ASCII text only before/after equality of .message is asserted (the statement is about export/import)']
+               'text under format "t" in a charset other than UTF-8 is compared as octets when the transport is binary (no Charset hint survives it)']
 
 SIGNERS = ['ed25519-0', 'ecdsa-p256-0', 'dsa1024-0', 'rsa1024-0', 'ecdsa-p384-0', 'ed25519-1']
 CONTENTS = [b'', b'a', b'plain ascii text\n', 'héllo wörld'.encode(), '日本語テキスト 🎉'.encode(), bytes(range(256)), b'\x00' * 100, b'\xff\xfe\xfd',
@@ -178,7 +178,8 @@ def eval_own(c, rec):
     if fname is not None:
         want_body = raw if before['format'] == 'b' else None
     elif isinstance(arg, str) or (text is not None and fmt in ('t', 'u', None)):
-        want_body = text.encode('utf-8')
+        # "octet-for-octet under the message's character encoding": the marker 'u' means UTF-8, text under 't' is in the charset of the hint
+        want_body = text.encode('utf-8' if before['format'] == 'u' else (enc or 'utf-8'))
     else:
         want_body = raw
     if before['format'] == 'b' and not isinstance(arg, str):
@@ -187,7 +188,7 @@ def eval_own(c, rec):
         rec.finding('content', 'literal-body-octets', c, 'literal body %r..., expected %r...' % (pm.literal.data[:30], want_body[:30]))
     if chr(pm.literal.format) != before['format'] or pm.literal.time != before['mtime'] or pm.literal.filename.decode('utf-8', 'replace') != before['filename']:
         rec.finding('metadata', 'literal-header-vs-object', c, 'format %r time %r filename %r' % (chr(pm.literal.format), pm.literal.time, pm.literal.filename))
-    if before['format'] in ('u',) and text is not None and fname is None and before['message'] != ['s', text]:
+    if before['format'] in ('u', 't') and text is not None and fname is None and before['message'] != ['s', text]:
         rec.finding('content', 'message-text-as-built', c, '%r != %r' % (before['message'][1][:40], text[:40]))
     # ---- reference verifies every signature over the literal body
     for p in pm.sigs:
@@ -211,6 +212,10 @@ def eval_own(c, rec):
         rec.finding('import', cause, c, repr(e))
         return
     for f in ('message', 'filename', 'mtime', 'format', 'comp', 'sigs', 'sensitive'):
+        if f == 'message' and before['format'] == 't' and enc not in (None, 'utf-8') and c['transport'] == 'bin':
+            # the binary form carries no Charset hint: what can be compared is the octets (the re-export below), not their reading as text
+            rec.note('text-of-other-charset-over-binary-transport/compared-as-octets')
+            continue
         if before[f] != after[f]:
             rec.finding('import', f, c, '%s: %r -> %r' % (f, str(before[f])[:80], str(after[f])[:80]))
     if bytes(back) != blob:
